@@ -16,7 +16,7 @@ import (
 // runsAtInstall: every hook of the set is attached to an install event, so a
 // stale object is met by the very first operation.
 func runsAtInstall(hooks []hx.HookSpec) bool {
-	for _, h := range hooks {
+	for _, h := range normHooks(hooks) {
 		if !has(h.Events, "pre-install") && !has(h.Events, "post-install") {
 			return false
 		}
@@ -32,7 +32,7 @@ func probes(hooks []hx.HookSpec) bool {
 		return true
 	}
 	pre, post := false, false
-	for _, h := range hooks {
+	for _, h := range normHooks(hooks) {
 		for _, e := range h.Events {
 			pre = pre || strings.HasPrefix(e, "pre-")
 			post = post || strings.HasPrefix(e, "post-")
@@ -269,7 +269,7 @@ func run(c *core.Ctx) {
 	config(c.Tier, cases, nil, drivers).Run(c)
 	markCtx = nil
 	var fam []string
-	for _, f := range []string{"F1", "F1b", "F1e", "F1r", "F2", "F3m", "F3p", "F3o", "Fw2", "Fw3", "F2e"} {
+	for _, f := range []string{"F1", "F1b", "F1e", "F1r", "Fs", "Fse", "F2", "F3m", "F3p", "F3o", "Fw2", "Fw3", "F2e"} {
 		if perFamily[f] > 0 {
 			fam = append(fam, fmt.Sprintf("%s=%d", f, perFamily[f]))
 		}
